@@ -154,6 +154,12 @@ Fixpoint parse_segments (l : list string) : pairs :=
 (* url.ParseQuery with the error dropped (= URL.Query()) *)
 Definition parse_query (q : string) : pairs := parse_segments (split_on "&" q).
 
+(* url.ParseQuery's error: some segment was refused (an empty segment is skipped
+   without an error; a segment with ';' or a bad escape is dropped AND reported) *)
+Definition seg_ok (seg : string) : bool :=
+  String.eqb seg "" || match parse_segment seg with Some _ => true | None => false end.
+Definition query_ok (q : string) : bool := forallb seg_ok (split_on "&" q).
+
 (* Go string order: bytewise lexicographic *)
 Fixpoint str_ltb (a b : string) : bool :=
   match a, b with
